@@ -531,10 +531,10 @@ class Watcher(object):
         if self.is_stopped():
             return
 
-        # remove dead or zombie processes first
+        # reap dead or zombie processes first
         for process in list(self.processes.values()):
             if process.status in (DEAD_OR_ZOMBIE, UNEXISTING):
-                self.processes.pop(process.pid)
+                self.reap_process(process.pid)
 
         if self.max_age:
             yield self.remove_expired_processes()
@@ -553,7 +553,7 @@ class Watcher(object):
                                   key=lambda process: process.started,
                                   reverse=True)[self.numprocesses:]:
                 if process.status in (DEAD_OR_ZOMBIE, UNEXISTING):
-                    self.processes.pop(process.pid)
+                    self.reap_process(process.pid)
                 else:
                     processes_to_kill.append(process)
 
@@ -561,7 +561,7 @@ class Watcher(object):
                              for process in processes_to_kill]
             for i, process in enumerate(processes_to_kill):
                 if removes[i]:
-                    self.processes.pop(process.pid)
+                    self.reap_process(process.pid)
 
     @gen.coroutine
     @util.debuglog
@@ -572,7 +572,7 @@ class Watcher(object):
         removes = yield [self.kill_process(x) for x in expired_processes]
         for i, process in enumerate(expired_processes):
             if removes[i]:
-                self.processes.pop(process.pid)
+                self.reap_process(process.pid)
 
     @gen.coroutine
     @util.debuglog
